@@ -514,7 +514,11 @@ func runStartUp(sp startSpec, dir string, k int) (obs startObs, unavailable erro
 	for _, w := range writes {
 		sent = append(sent, hx.Hex(w))
 	}
-	obs.term = fmt.Sprintf("{| c_ops := %s; c_end := 0%%N; c_hs := %s; c_sent := %s; c_sclose := %d%%N |}", hx.List(ops), hx.List(hobs), hx.List(sent), closes)
+	var wire []byte
+	for _, w := range writes {
+		wire = append(wire, w...)
+	}
+	obs.term = fmt.Sprintf("{| c_ops := %s; c_end := 0%%N; c_hs := %s; c_sent := %s; c_wire := %s; c_sclose := %d%%N |}", hx.List(ops), hx.List(hobs), hx.List(sent), hx.Hex(wire), closes)
 	return
 }
 
